@@ -94,6 +94,7 @@ type Obl struct {
 	Seconds float64
 	Output  string
 	File    string
+	Decided bool // status already determined (ground evaluation): no SMT query
 }
 
 type unsupported struct{ msg string }
